@@ -4,7 +4,7 @@
 //! Enumerated: every valid game of the universe and every member of the adversarial families
 //! (deep chains, wide shared infosets, rare chance outcomes, dominated actions, k-ary trees,
 //! payoffs scaled by 2^-80 and 2^40) x presets {vanilla, lcfr, cfr_plus, dcfr, dcfr_prune} x
-//! budgets; thread counts {2, 5} (real pool) on the families.
+//! budgets; thread counts {2, 3, 5} (real pool) on the families.
 //! Oracle: vanilla: each player's bound <= 2 D N sqrt(A) / sqrt(T); every preset: true regret
 //! <= 6 D N (sqrt(A) + 1/sqrt(T)) / sqrt(T), D / N / A computed from the tree by the harness.
 use super::c02::true_regret;
@@ -89,6 +89,13 @@ pub fn adversarial() -> Vec<(String, Tree)> {
             res.push((format!("kary_{}_{}", k, d), kary_alternating(k, d)));
         }
     }
+    // matrix games: a root with k actions over one shared opponent infoset with k actions
+    for k in [3usize, 4] {
+        let acts: Vec<(String, Tree)> = (0..k)
+            .map(|i| (format!("r{}", i), Tree::P(1, "z".to_string(), (0..k).map(|j| (format!("c{}", j), Tree::T((((i * 7 + j * 5 + i * j * 3) % 11) as f64) - 5.0))).collect())))
+            .collect();
+        res.push((format!("matrix_{}x{}", k, k), Tree::P(0, "root".to_string(), acts)));
+    }
     // the envelope scales with D: tiny and huge payoff ranges
     let base: Vec<(String, Tree)> = res.iter().filter(|(n, _)| ["matching_pennies", "dominated_action", "kuhn", "wide_shared_3", "deep_chain_4", "rare_chance_1e2"].contains(&n.as_str())).cloned().collect();
     for (name, tree) in base {
@@ -158,7 +165,7 @@ pub fn run(ctx: &Ctx) -> i32 {
         }
     });
     // thread counts (real pool) on the families, a few states per trace
-    let tb: &[u64] = if ctx.thorough() { &[1, 10, 100, 1000] } else { &[1, 10, 100] };
+    let tb: &[u64] = &[1, 10, 100, 1000];
     par_for_each(&fams, 1, |_, (name, tree)| {
         if tree.num_internal() > 30 {
             return;
@@ -168,7 +175,7 @@ pub fn run(ctx: &Ctx) -> i32 {
             Err(_) => return,
         };
         for preset in [0usize, 3] {
-            for threads in [2usize, 5] {
+            for threads in [2usize, 3, 5] {
                 for &iters in tb {
                     let ratios = check_state(ctx, tree, &game, preset, iters, threads);
                     note(ratios, format!("{} {} T={} threads={}", name, PRESET_NAMES[preset], iters, threads));
@@ -177,6 +184,21 @@ pub fn run(ctx: &Ctx) -> i32 {
             }
         }
     });
+    // thorough: a long multi-threaded run on the matrix games, where the envelope is small against
+    // the payoff range (a solver that converges to the wrong point at several threads is outside it)
+    if ctx.thorough() {
+        let long: Vec<(String, Tree)> = fams.iter().filter(|(n, _)| n.starts_with("matrix_")).cloned().collect();
+        par_for_each(&long, 1, |_, (name, tree)| {
+            let game = build(tree).unwrap();
+            for preset in [0usize, 3] {
+                for threads in [2usize, 3] {
+                    let ratios = check_state(ctx, tree, &game, preset, 100_000, threads);
+                    note(ratios, format!("{} {} T=100000 threads={}", name, PRESET_NAMES[preset], threads));
+                    ctx.count("real_pool_runs", 1);
+                }
+            }
+        });
+    }
     let w = worst.lock().unwrap();
     ctx.set("largest_true_regret_over_envelope", json!({"ratio": w.0, "at": w.2}));
     ctx.set("largest_vanilla_bound_over_envelope", json!({"ratio": w.1, "at": w.3}));
